@@ -228,16 +228,6 @@ Definition rpc_back (o : rpc_out) : Z :=
   | ROk => -1 | RStatus c => if c =? 0 then -1 else c | RDeadline => 100 | RWrapsDeadline => 101
   | RPanic => 13                      (* codes.Internal, crashinterceptor.go:32 *)
   end.
-(* status the HTTP client gets, and whether a panic escapes the chain *)
-Definition http_status (guard : bool) (s : shape) : Z :=
-  match s with
-  | SHeader c | SStream c => c
-  | SWrite | SNothing | SWritePanic => 200
-  | SPanic => if guard then 500 else 200
-  end.
-Definition http_escapes (guard : bool) (s : shape) : Z :=
-  match s with SPanic | SWritePanic => if guard then 0 else 1 | _ => 0 end.
-
 Definition i_row (http guard : bool) (c : cnt) (drop : bool) (k : nat) (arg : Z) : list Z :=
   let base := [if drop then 0 else 1; c_pass c; c_fail c; c_drop c; 0; 0] in
   if http then base ++ (if drop then [503; 0] else [http_status guard (shape_of k arg); http_escapes guard (shape_of k arg)])
